@@ -383,7 +383,8 @@ func init() {
 		Rule: "well-formed scenarios from G-general (positional lists repeating a type, all forms, run-once, generated converters), hostile families (mutual recursion through 2-3 multi-input converters, self-consuming converters, " +
 			"typed-with-subtype next to named parameters, providers, same-name chains) and constructive DAGs/cycles; per repetition the monitor drives Call, Convert(random type), Redefine(random filter) and a call of the redefined function; " +
 			"oracle: no recovered panic, no worker death, reachTarget nesting depth <= 8*(F+2) and <= 10^6 entries per API call (hook counters); a separate family feeds malformed options " +
-			"(nil option, Named/Typed(nil), ConverterFunc(nil), Converter(42), Converter(nil), NewFunc(nil), generator returning an error or (nil,nil)) and requires error-or-ignore. " +
+			"(nil option, Named/Typed(nil), ConverterFunc(nil), Converter(42), Converter(nil), NewFunc(nil), generator returning an error or (nil,nil), ConverterGen(nil), Logger(nil)) and requires error-or-ignore. " +
+			"One case in eight uses value names that are not Go identifiers, one in eight exotic types (unnamed, mutually assignable, func, chan); one case in 45 is concurrent: calls that need two shared run-once converters in opposite nesting order must all return (deadlock verdict by goroutine state, see C11). " +
 			"non-trivial = the case has >= 2 converters or belongs to a hostile/malformed family",
 		Assumptions: []string{
 			"'never fails to terminate' is restated as bounded progress: recursion-depth and resolver-step bounds observed through the verif hook, plus process survival; the wall-clock watchdog alone is inconclusive",
@@ -401,6 +402,11 @@ func init() {
 
 func runC06(c *CaseCtx) (res CaseResult) {
 	r := caseRand(c.Seed, "C06", c.Idx)
+	if c.Idx%45 == 7 {
+		// concurrent calls that need two shared run-once converters in
+		// opposite nesting order: every call returns (see C11)
+		return runCrossNestedOnce(c, r)
+	}
 	if r.Intn(100) < 12 {
 		return runC06Malformed(c, r)
 	}
